@@ -846,7 +846,8 @@ def bundled(out: hlib.RecWriter, stats: dict) -> None:
         for n, ent in enumerate(order):
             if not thorough and n % 3 != hlib.seed() % 3 and n > 0:
                 continue
-            rec = ent_record(ent, cs, ls, 'bundled', text=parts[ent.classname])
+            # (the entity's own export; its place in the file is found by reading the file)
+            rec = ent_record(ent, cs, ls, 'bundled')
             if parsed is not None:
                 got = parsed.entities.get(ent.classname.casefold())
                 if got is not None:
